@@ -452,11 +452,11 @@ func main() {
 			"workers":                 par,
 			"explanation":             "stateless model checking of the implementation under a controlled scheduler (testing/synctest bubble + shimmed sync/atomic/time) and bounded exhaustive enumeration against reference models; see DESIGN.md",
 		},
-		"assumptions": []string{
+		"assumptions": append(raceAssumption(), []string{
 			"sequential consistency (no weak-memory behaviours); unsynchronised shared accesses are outside the scheduler's view",
 			"third-party dependencies (gorilla/websocket, parser, compression libraries) run atomically inside the calling thread",
 			"bounds as stated per unit (preemption/deviation bound, alphabet, depth, horizon)",
-		},
+		}...),
 	}
 	os.MkdirAll(filepath.Join(verif, "evidence"), 0o755)
 	b, _ := json.MarshalIndent(ev, "", " ")
@@ -522,3 +522,24 @@ func matchKnown(ks []Known, prop, fp string, cost int) *Known {
 	return nil
 }
 
+
+// raceAssumption reports the last free-running race-detector pass (tools/racepass.sh), if there is one.
+func raceAssumption() []string {
+	b, err := os.ReadFile(filepath.Join(verif, "race_report.json"))
+	if err != nil {
+		return []string{"no free-running race-detector pass recorded (tools/racepass.sh)"}
+	}
+	var r struct {
+		Head  string   `json:"repo_head"`
+		N     int      `json:"races_reported"`
+		Sites []string `json:"sites"`
+	}
+	if json.Unmarshal(b, &r) != nil {
+		return nil
+	}
+	s := fmt.Sprintf("free-running -race pass of the session scenarios (auxiliary, tools/racepass.sh, at /repo %s): %d data race report(s)", r.Head, r.N)
+	if r.N > 0 {
+		s += "; unsynchronised accesses at " + strings.Join(r.Sites, "; ")
+	}
+	return []string{s}
+}
